@@ -123,4 +123,18 @@ theorem C01_parentheses_are_kept (e : Env) (r : Rec) (ctx : Ctx) (n : ANode)
       Wrapped ((e.soft "(").fam u) ((e.soft ")").fam u) xs) :=
   convParenthesized_keeps_parens e r ctx n hnest hkeep
 
+/-- The premises of `C01_parentheses_are_kept` are satisfiable: `(x)`. -/
+def exampleParenX : ANode := .inner .parenthesized [.leaf .leftParen "(" {}, .leaf .ident "x" {}, .leaf .rightParen ")" {}] {}
+example : (∀ p, exampleParenX.children.find? isPattern = some p → (p.kind == .parenthesized && !hasCommentChildren exampleParenX) = false) ∧
+    (parenOmittable exampleParenX && !hasCommentChildren exampleParenX) = false := by
+  constructor
+  · intro p hp
+    have : p = .leaf .ident "x" {} := by
+      simp [exampleParenX, ANode.children, isPattern, isExpr, ANode.kind, Kind.isExpr] at hp
+      exact hp.symm
+    subst this; rfl
+  · decide
+/-- … and `(1)` is a body whose parentheses may go (the theorem's hypothesis fails there, as it must). -/
+example : parenOmittable (.inner .parenthesized [.leaf .leftParen "(" {}, .leaf .int "1" {}, .leaf .rightParen ")" {}] {}) = true := by decide
+
 end Typstyle
